@@ -17,45 +17,22 @@ CLAIMED = {
              "is tied to auditable.py by differential runs on generated and exhaustively enumerated histories evaluated in Coq.",
         design="0, 7/C18", technique="Coq proof (log invariant + simulation by induction over histories)" + T_CORR),
     "C01": dict(
-        text="Proof: on a faithful Gallina model of SimpleMemory and Memory (three nested insertion-ordered dict indexes, per-triple context map with default-context "
-             "compression, context->triples map) and of the Graph layer: the store invariant is preserved by add/remove, add/remove change exactly the target graph as the set "
-             "operation says (all 8 wildcard shapes) and leave every other graph unchanged, triples(pattern) is a duplicate-free exact enumeration for all 8 shapes and any graph, "
-             "len/contains follow, whole histories and the set operators += -= + - * ^ (incl. aliasing) equal the mathematical set result (C01_history, C01_setops); no iterator step "
-             "ever raises for any schedule (C01_iter_no_raise). Iterator soundness is refuted by a witness (known finding F10) and otherwise only run. Tied to memory.py/graph.py by "
-             "differential histories, set-operator cases and iterator/mutation schedules.",
+        text='Proof: on a faithful Gallina model of SimpleMemory and Memory (three nested insertion-ordered dict indexes, per-triple context map with default-context compression, context->triples map) and of the Graph layer: the store invariant is preserved, add/remove change exactly the target graph (all 8 wildcard shapes) and leave every other graph unchanged, triples(pattern) is a duplicate-free exact enumeration for all 8 shapes and any graph, whole histories incl. += -= and + - * ^ whose results stay in play equal the mathematical set result (C01_history, C01_setops, C01_binop_result_in_play), and for every schedule of opens, steps and mutations no iterator step raises and every yielded triple matched and was in the graph at some state since the open (C01_iter_sound, full strength after two fix: commits). Tied to memory.py/graph.py by differential histories and iterator/mutation schedules.',
         design="0, 7/C01", technique="Coq proof (index/context invariants, refinement to a quad set by induction over histories; small-step generator semantics)" + T_CORR),
     "C02": dict(
-        text="Proof: on a Gallina model of ConjunctiveGraph/Dataset over an abstract quad store, for every state: add/remove are isolated "
-             "per graph, remove without graph removes from all graphs, remove_graph empties and forgets only that graph, membership is exact, "
-             "no fallback to another graph for an empty or unknown graph (C02_no_fallback, after the fix: commit); the agreement of all views "
-             "(quads, graphs, per-graph views, union view) is proved for histories outside two known-finding trigger regions (partial). "
-             "Tied to rdflib/graph.py by differential runs on generated histories incl. IRI- and bnode-named graphs, default_union on/off.",
+        text="Proof: on a Gallina model of ConjunctiveGraph/Dataset over an abstract quad store, for every state: add/remove are isolated per graph, remove without graph removes from all graphs, remove_graph empties and forgets only that graph, membership is exact for any graph argument, no fallback for an empty or unknown graph, reads do not write (after the fix: commits); the agreement of all views (quads, graphs, per-graph views, union view) is proved for histories outside one known-finding trigger (quads restricted to a graph also yields the triple's other graphs - pinned by an existing test). Tied to rdflib/graph.py by differential histories incl. IRI- and bnode-named graphs, foreign Graph arguments, default_union on/off at write time.",
         design="0, 7/C02", technique="Coq proof (invariants over dataset histories, refinement to a map graph name -> triple set)" + T_CORR),
     "C03": dict(
-        text="Proof (partial): N-Triples text level at full strength - unquote(quote_encode s) = s for every Python string, the reader's literal scanner delimits exactly the written body, "
-             "and every well-formed readable triple/document written by the model of nt.py is read back as itself by the model of ntriples.py (the readability hypothesis the proof forced is "
-             "known finding F15b); Turtle string text: one-quote form for every string without line feed, three-quote form for strings without quote characters (rest by exhaustive enumeration "
-             "to length 6 over the special alphabet). Graph-level round trips of all eight formats (blank-node topologies, lists, literals) are conformance runs against a backtracking "
-             "isomorphism oracle, with 15 known findings identified by input-side triggers.",
+        text='Proof (partial): N-Triples text level at full strength - unquote(quote_encode s) = s for every string, every well-formed triple/document written by the model of nt.py is read back as itself by the model of ntriples.py incl. its 2048-character buffered readline, for any chunk size; Turtle string text: one-quote and three-quote forms for every string (strconst inverts _quote_encode); isValidList/doList of the Turtle serialisers terminate and write exactly the members; HexTuples row partial. Graph-level round trips of all eight formats (blank-node topologies, lists, literals, files read back from binary sources with multi-byte characters on chunk boundaries) are conformance runs against a backtracking isomorphism oracle, with known findings identified by input-side triggers.',
         design="0, 7/C03", technique="Coq proof (string codec round trips by induction over code points, regexes as deterministic scanners over reflected character tables)" + T_CORR),
     "C04": dict(
-        text="Proof (partial): SPARQL 1.1 section 18 bottom-up evaluation is the specification and a function-by-function Gallina model of rdflib's top-down evaluator (evalBGP with context push, "
-             "lazy and hash joins, LeftJoin with its second evaluation, Filter/Extend with forget, Union, Minus, Values, Graph, Project, Distinct, three-valued expressions) is the model. Proved: for "
-             "every BGP, every order of its triple patterns and every incoming context the top-down evaluation is a permutation of the compatible extensions (C04_bgp), UNION and VALUES, and the tie "
-             "theorem on the join-free fragment {BGP, UNION, GRAPH ?g, projection} for SELECT/ASK/CONSTRUCT. Join, push-down for Filter/LeftJoin/Minus/Extend are NOT proved: outside eleven syntactic "
-             "trigger regions (known findings with witnesses) agreement of rdflib, model and specification rests on generated queries judged by the verified bottom-up checker.",
+        text="Proof (partial): SPARQL 1.1 section 18 bottom-up evaluation is the specification; a function-by-function Gallina model of rdflib's top-down evaluator is the model. Proved: BGP for every pattern order and incoming context; lazy and hash Join; and the push-down theorem C04_pushdown by mutual induction over patterns and expressions for a fragment with BGP, Union, Values, Graph, Join, sub-SELECT as right operand of a lazy join, LeftJoin, Minus, Extend, Filter, (NOT) EXISTS and comparisons, under side conditions that are the negations of the remaining known-finding triggers; the tie theorem holds on that fragment (78% of generated cases, 98% of the untriggered ones). NOT proved: the tie for every untriggered case (sub-SELECT pushed into from OPTIONAL/EXISTS, DISTINCT under pushed bindings, non-atomic comparison operands). Every generated query is judged by the verified bottom-up checker.",
         design="0, 7/C04", technique="Coq proof (BGP evaluation by permutation/commutation lemmas on canonical solutions) + bottom-up algebra as verified checker" + T_CORR),
     "C05": dict(
-        text="Proof (partial): an executable strict reader for the W3C N-Triples/N-Quads grammar (validated on every run against all 157 W3C syntax test files) and a model of rdflib's writer: "
-             "for every well-formed row/document outside four writer trigger regions the strict reader reads rdflib's line as exactly the input quads (C05_nt_output_valid, C05_nq_output_valid, "
-             "C05_document_valid; IRIREF validity proved over the reflected _invalid_uri_chars table). Completeness of rdflib's reader on the W3C language, Turtle/TriG/RDF-XML/JSON-LD alternative "
-             "spellings and the equivalence of str/bytes/file/path sources are conformance runs with independent randomised writers. Eleven known findings.",
+        text="Proof (partial): an executable strict reader for the W3C N-Triples/N-Quads grammar (validated on every run against the 157 W3C syntax test files) is the specification. Writer half: for every well-formed row/document (only hypothesis: blank-node ids are BLANK_NODE_LABELs) the strict reader reads rdflib's output as exactly the input quads; IRIREF validity proved over the reflected _invalid_uri_chars table. Reader half: C05_nt_reads_legal at line and document level - every legal document is read by the model of rdflib's reader as the grammar's statement list, outside two reader findings. Turtle/TriG/RDF-XML/JSON-LD alternative spellings (incl. RFC 3986 relative references, xml:lang scoping, JSON-LD contexts) and the equivalence of str/bytes/file/path sources are conformance runs with independent randomised writers.",
         design="0, 7/C05", technique="Coq proof (grammar transcribed production by production as the specification, writer model proved to land inside it)" + T_CORR),
     "C06": dict(
-        text="Proof (routing level): for every well-formed dataset the model of each serialiser/parser pair returns each triple to its graph up to "
-             "blank-node renaming: N-Quads, HexTuples and RDF Patch add at full strength; TriG, TriX, JSON-LD and Patch diff/apply partial under "
-             "explicit trigger hypotheses, each with a refuting witness reproduced on rdflib (known findings). A verified boolean isomorphism "
-             "decision procedure judges what the six real serialiser/parser pairs return. Text/XML/JSON layers are exercised, not modelled.",
+        text='Proof (routing level): for every well-formed dataset the model of each serialiser/parser pair returns each triple to its graph up to blank-node renaming: N-Quads, HexTuples, TriG, RDF Patch add and diff/apply at full strength; TriX and JSON-LD partial under explicit trigger hypotheses with refuting witnesses reproduced on rdflib (open findings). A boolean isomorphism decision procedure proved sound and complete judges what the six real serialiser/parser pairs return, incl. RDF collections, serialisation options (base, per-graph base, prefixes) and blank nodes shared across graphs. Text/XML/JSON layers are exercised, not modelled.',
         design="0, 7/C06", technique="Coq proof (routing functions, iso decision procedure proved sound and complete)" + T_CORR),
     "C07": dict(
         text="Proof: on a Gallina model of rdflib terms: equality is an equivalence distinguishing kinds and (lexical, datatype, lower-cased language); "
@@ -70,22 +47,13 @@ CLAIMED = {
              "by stage by the verified checker (multiset + sortedness, ties left open).",
         design="0, 7/C08", technique="Coq proof (list permutation/sortedness lemmas, fold invariants for aggregates)" + T_CORR),
     "C09": dict(
-        text="Proof (partial): on a Gallina model of Literal construction/normalisation over tables reflected from the source: the 13 XSD integer types, "
-             "boolean and the string family are faithful (valid forms accepted with the XSD value, round trip, normalisation idempotent and value-preserving), "
-             "eq agrees with value equality for integers; decimal, float/double, date/time/duration, binary types are tied by correspondence/conformance runs "
-             "against an independent oracle only. Seven groups of defects are known findings with refuting witnesses.",
+        text='Proof (partial): on a Gallina model of Literal construction/normalisation over tables reflected from the source: the 13 XSD integer types, boolean, the string family incl. token, and decimal are faithful (valid forms accepted with the XSD value, round trip, normalisation idempotent and value-preserving), eq agrees with value equality incl. integer/decimal cross-type; the tie theorem covers every modelled case kind. Float/double, date/time/duration, binary types are tied by conformance runs against an independent oracle only. Three open findings (Decimal NaN/Infinity, bytes, date/time edge cases).',
         design="0, 7/C09", technique="Coq proof (lexical/value maps over Z, generic idempotence from parse-print identity; reflected tables)" + T_CORR),
     "C10": dict(
-        text="Proof: on a model of update.py over a quad set + known graph names with the WHERE solutions as a parameter: INSERT DATA, DELETE DATA, DELETE WHERE, DELETE/INSERT (all deletions "
-             "before any insertion, full strength after the fix: commit), CLEAR, DROP, ADD, MOVE, COPY each equal the SPARQL 1.1 Update transformer (membership characterisations), untouched graphs "
-             "stay equal, operations run in order, template blank nodes come from an injective fresh supply (freshness w.r.t. the store only as a window property: partial). Seven known findings "
-             "(union-switch and Dataset corners, illegal template triples, unbound GRAPH ?g) with model-faithful triggers. Tied to Graph/ConjunctiveGraph/Dataset.update by differential requests.",
+        text='Proof: on a model of update.py over a quad set + known graph names with the WHERE solutions as a parameter: INSERT DATA, DELETE DATA, DELETE WHERE, DELETE/INSERT (all deletions before any insertion), CLEAR, DROP, ADD, MOVE, COPY each equal the SPARQL 1.1 Update transformer for all three front ends and both settings of the union switch (writes outside GRAPH go to the real default graph), untouched graphs stay equal, operations run in order, template blank nodes are fresh per solution and distinct from every term of the dataset (eight fix: commits). One open finding (DELETE WHERE with GRAPH ?g). Tied to Graph/ConjunctiveGraph/Dataset.update by differential requests incl. per-operation prologues, WITH/USING/USING NAMED.',
         design="0, 7/C10", technique="Coq proof (dataset transformers, per-operation membership lemmas, induction over request sequences)" + T_CORR),
     "C11": dict(
-        text="Proof: for every graph, every well-formed path expression and each of the four bound/unbound combinations of the ends the model of "
-             "rdflib/paths.py (incl. MulPath with its shared seen set) yields exactly the pairs of the relational semantics, terminates within the stated fuel, "
-             "closures are duplicate-free, zero-length matches hold for absent terms; partial under four trigger regions (known findings F4b-F4e with witnesses). "
-             "Tied to Graph.triples/subjects/objects and the SPARQL route by differential runs.",
+        text='Proof: for every graph, every well-formed path expression and each of the four bound/unbound combinations of the ends the model of rdflib/paths.py (incl. MulPath with its shared seen set) yields exactly the pairs of the relational semantics, terminates within the stated fuel, closures are duplicate-free (full strength after two fix: commits), zero-length matches hold for absent terms; partial only for negated sets with inverse members (pinned by the module doctest; open findings F4c/F4e). Tied to Graph.triples/subjects/objects, ConjunctiveGraph/Dataset contexts, histories on one graph object and the SPARQL route by differential runs.',
         design="0, 7/C11", technique="Coq proof (structural induction on paths, DFS reachability invariant, Warshall closure as executable spec)" + T_CORR),
     "C12": dict(
         text="Proof: on a model of a parse call as a fold of add over statements under a per-call label map: parsing only adds (full strength after the fix: commit), "
@@ -94,10 +62,7 @@ CLAIMED = {
              "The checker recovers the label-to-node map from tag triples and judges what the eight real parsers produced.",
         design="0, 7/C12", technique="Coq proof (invariant over sequences of parse calls, freshness supply as section hypothesis)" + T_CORR),
     "C13": dict(
-        text="Proof (partial): reads of the C02 dataset model are state transformers ds -> ds * out; for reads given no foreign Graph object quads, union-only triples and known graph names are "
-             "unchanged and the read is repeatable (C13_read_pure, C13_repeatable); refuted with witness for reads given a Graph from another store (known finding F19). The bodies of serialisers "
-             "and of the query engine are opaque in the model: for them a catalogue of 111 read-only API calls (all serialisers, SELECT/ASK/CONSTRUCT/DESCRIBE, paths, compare, slicing) is run twice "
-             "on generated datasets with snapshots taken straight off the store before/after.",
+        text='Proof: reads of the C02 dataset model are state transformers ds -> ds * out; quads, union-only triples and known graph names are unchanged and the read is repeatable, for any graph argument (C13_read_pure, C13_repeatable, C13_spec_ok_model at full strength after the fix: commit that stopped reads from copying a foreign graph). The bodies of serialisers and of the query engine are opaque in the model: for them a catalogue of 189 read-only API calls (all serialisers incl. patch diff against a second dataset, SELECT/ASK/CONSTRUCT/DESCRIBE with FROM over files, paths, compare, slicing, Resource/Collection reads) is run twice on generated datasets with snapshots of quads and graph names taken straight off the stores before and after.',
         design="0, 7/C13", technique="Coq proof (reads as state transformers over the dataset model) + snapshot/repeat runs of every read-only API" + T_CORR),
     "C14": dict(
         text="Proof (partial): a backtracking isomorphism decision procedure is proved sound and complete (iso_dec = true <-> exists injective blank-node renaming) and judges "
@@ -112,26 +77,16 @@ CLAIMED = {
              "SimpleMemory, AuditableStore, ReadOnlyGraphAggregate) are conformance runs: every C04 case is posed in all these variants and the answers compared as multisets.",
         design="0, 7/C15", technique="Coq proof (permutation invariance of BGP/UNION evaluation) + variant-posing correspondence runs" + T_CORR),
     "C16": dict(
-        text="Proof: JSON term/result round trip (assuming json loads∘dumps = id as a visible hypothesis), XML text/attribute escaping round trips by induction over characters "
-             "for XML Chars (CR, control characters, empty IRI, falsy literals refuted: known findings), TSV term and row recovery for every W3C-conformant rendering (document level run only), "
-             "CSV cells; the tie theorem covers JSON, XML and CSV cases outside the trigger regions. Tied to the four real writers/readers by differential runs on random tables.",
+        text='Proof: JSON term/result round trip (json loads∘dumps = id as a visible hypothesis), XML text/attribute escaping round trips by induction over characters for every string of XML Chars (CR written as a character reference; characters XML 1.0 cannot carry are refused by the writer, which the specification demands), TSV term, row and document level for every W3C-conformant rendering, CSV cells; the tie theorem covers all four formats with no trigger left (nine fix: commits). Tied to the real writers/readers by differential runs on random tables.',
         design="0, 7/C16", technique="Coq proof (character-level codec round trips by induction, scanner models of the TSV grammar)" + T_CORR),
     "C17": dict(
-        text="Proof: on a model of Memory.bind and NamespaceManager (bind with override/replace/numbered fallbacks, compute_qname with caches and tries, split_uri executable for all Unicode given "
-             "a category table): after any sequence of operations outside the F6b trigger the two store dicts are mutually inverse partial maps, qname/curie use a prefix bound NOW to that namespace "
-             "(what the fix: commit for the cache buys) and expand back to the IRI; get_longest_namespace returns the longest known namespace on a well-formed trie (insert_trie well-formedness "
-             "not proved: partial). Three known findings. Tied by histories of bind/qname/expand plus a conformance suite with parse/serialize/default prefixes.",
+        text="Proof: on a model of Memory.bind and NamespaceManager (bind with override/replace/numbered fallbacks, compute_qname with caches and tries, split_uri executable for all Unicode given a category table): after any sequence of operations the two store dicts are mutually inverse partial maps, qname/curie use a prefix bound NOW and expand back to the IRI, insert_trie preserves well-formedness and get_longest_namespace returns the longest known namespace for any insertion order (all at full strength after four fix: commits). One open finding (the dataset's default context has its own namespace manager; repair pinned by existing tests). Tied by histories of bind/qname/expand on one graph and on a dataset with its named graphs, plus a conformance suite with parse/serialize/default prefixes.",
         design="0, 7/C17", technique="Coq proof (dictionary bijection invariant over bind histories, section-abstract split function with exactness hypothesis)" + T_CORR),
     "C19": dict(
-        text="Proof: on a statement-by-statement model of collection.py over an insertion-ordered triple list: outside the trigger regions every operation returns what the Python list returns, "
-             "preserves the representation invariant and a well-formed rdf:first/rdf:rest chain (C19_refines_partial), IndexError for i > len, reads terminate on every graph and raise on cyclic "
-             "chains; five known findings (del c[0], c[len], negative indices, += [] on empty, index() on a looping chain) with refuting witnesses. Tied by histories of list operations from "
-             "lengths 0-5 incl. falsy members and duplicates, and reads on cyclic/broken chains with a CPU-time hang detector.",
+        text='Proof: on a statement-by-statement model of collection.py over an insertion-ordered triple list: every operation except item assignment at index == len returns what the Python list returns (negative indices, IndexError, del c[0], += []), preserves the representation invariant and a well-formed rdf:first/rdf:rest chain; reads and index() terminate on every graph and raise on cyclic chains (four fix: commits; the remaining finding is pinned by an existing test). Tied by histories of list operations from lengths 0-5 incl. falsy members and duplicates, and reads on cyclic/broken chains with a CPU-time hang detector.',
         design="0, 7/C19", technique="Coq proof (refinement of a Python list with representation invariant, fuel shown sufficient on well-formed chains)" + T_CORR),
     "C20": dict(
-        text="Proof: on a model of SPARQLStore/SPARQLUpdateStore as request algebra + edit queue over a specification-level endpoint: every write has the same effect as on a local dataset, "
-             "triples for all 8 shapes and len mirror the endpoint, and for every history the endpoint equals the due writes in order (commit / non-dirty read / rollback rules) by simulation; "
-             "four known findings with refuting witnesses. Tied to the real client by histories against a loopback HTTP endpoint (GET/POST/POST_FORM, XML/JSON); request text and HTTP are run only.",
+        text='Proof: on a model of SPARQLStore/SPARQLUpdateStore as request algebra + edit queue over a specification-level endpoint: every write has the same effect as on a local dataset, triples for all 8 shapes, contexts, query and len mirror the endpoint, and for every history (incl. updates the endpoint rejects) the endpoint equals the due writes in order (commit / non-dirty read / rollback rules) by simulation; no trigger left after four fix: commits. Tied to the real client by histories against a loopback HTTP endpoint (GET/POST/POST_FORM, XML/JSON, Content-Type variants, constructor kwargs); request text and HTTP are run only.',
         design="0, 7/C20", technique="Coq proof (state-machine simulation over histories)" + T_CORR),
 }
 
